@@ -246,7 +246,7 @@ Inadmissible(e, pre) ==
           \/ e.arg.t \in {"PrepareRequest", "PrepareResponse"} /\ e.arg.v < pre.v
           \/ e.arg.t = "PrepareResponse" /\ e.arg.v = pre.v /\ e.arg.from = pre.primary
           \/ e.arg.t = "PreCommit" /\ ~pre.amev /\ e.arg.v <= pre.v
-     \/ e.call = "OnTransaction" /\ e.arg.tx \notin Range(pre.missing)
+     \/ e.call = "OnTransaction" /\ (e.arg.tx \notin Range(pre.missing) \/ e.arg.tx \notin Range(pre.txs) \/ ~ReqStored(pre))
      \/ e.call = "OnTimeout" /\ (e.arg.h # pre.h \/ e.arg.v # pre.v)
 Effects(e) == Bcs(e) \cup Cbs(e, "TimerReset") \cup Cbs(e, "TimerExtend") \cup Cbs(e, "ProcessBlock")
                 \cup Cbs(e, "ProcessPreBlock") \cup Cbs(e, "RequestTx") \cup Cbs(e, "Sign") \cup Cbs(e, "SetData")
@@ -256,6 +256,8 @@ Redelivery(e, pre) ==
      /\ SameButSeen(pre, e.post) /\ pre.cache = e.post.cache
      /\ Effects(e) \subseteq Bc(e, "RecoveryMessage")
 NoPanic(e) == e.panic = ""
+\* only transactions of the stored proposal are ever held or asked for
+HeldTxsBelong(s) == s.started => Range(s.have) \subseteq Range(s.txs)
 
 -----------------------------------------------------------------------------
 \* C12 A backup given every requested transaction answers
@@ -380,6 +382,7 @@ StepViolations(e, pre) ==
           \cup P("C10", "TimeoutRearms", TimeoutRearms(e, pre))
           \cup P("C11", "NoEffect", NoEffect(e, pre))
           \cup P("C11", "Redelivery", Redelivery(e, pre))
+          \cup P("C11", "HeldTxsBelong", HeldTxsBelong(e.post))
           \cup P("C12", "Answers", Answers(e, pre))
           \cup P("C13", "Silent", Silent(e, pre))
 
